@@ -1,4 +1,6 @@
-import CotengraVerif.Lemmas.BmmMain
-#print axioms Cotengra.Bmm.bmm_lab
-#print axioms Cotengra.Bmm.pure_lab
-#print axioms Cotengra.Bmm.single_plan_lab
+import CotengraVerif.Props.C11
+#print axioms Cotengra.C11.model_plan_sound
+#print axioms Cotengra.C11.head_plan_sound_partial
+#print axioms Cotengra.C11.head_plan_sound_nodup
+#print axioms Cotengra.C11.head_plan_counterexample
+#print axioms Cotengra.C11.single_plan_sound
